@@ -1,5 +1,6 @@
 pub mod cup;
 pub mod resp;
 pub mod time;
+pub mod uri;
 pub mod version;
 pub mod wire_req;
